@@ -5,6 +5,14 @@ mod verif_kani {
 
     //@LIFTED@
 
+    /// C03/C02: the file-type mask used by -type is S_IFMT
+    #[kani::proof]
+    #[kani::unwind(17)]
+    fn c03_ifmt_bits() {
+        assert!(lifted_ifmt_bits() == 0o170000);
+        kani::cover!(true);
+    }
+
     /// C08: the mask of the `all twelve permission bits equal` check is 07777
     #[kani::proof]
     #[kani::unwind(17)]
